@@ -13,7 +13,7 @@ theorem exec_pending (P : Prog) (s s' : State) (t : Nat) (i : Instr) (rest : Lis
 
 theorem step_pending (P : Prog) (s s' : State) (t : Nat) (h : step P s t = some s') :
     s'.pending = s.pending ∨ s'.pending = [] ∨ s'.pending = [t] := by
-  rcases step_cases P s s' t h with ⟨_, rfl⟩ | ⟨_, _, _, rfl⟩ | ⟨_, _, _, rfl⟩ | ⟨_, rfl⟩ | ⟨_, _, rfl⟩ | ⟨_, i, rest, _, he⟩
+  rcases step_cases P s s' t h with ⟨_, rfl⟩ | ⟨_, _, _, rfl⟩ | ⟨_, _, _, rfl⟩ | ⟨_, rfl⟩ | ⟨_, _, _, rfl⟩ | ⟨_, i, rest, _, he⟩
   · exact Or.inl rfl
   · exact Or.inl rfl
   · left; unfold funcEndStep; split <;> rfl
